@@ -598,7 +598,9 @@ func genHTTP(o genOpts, w *bufio.Writer) {
 	}
 	// 3. odd subscriber identifiers and PLMN ids
 	supis := []string{"", "imsi", "imsi-", "208930000000001", "nai-user@realm", "gci-x", "gli-y", "msisdn-1", "a-b-c", "imsi-../../etc/passwd",
-		"imsi-20893/0001", "imsi-%2F", "-", "x", "imsi-2089300000000771", strings.Repeat("9", 300), "imsi-é", "IMSI-208930000000001", "nai", "gci", "gli"}
+		"imsi-20893/0001", "imsi-%2F", "-", "x", "imsi-2089300000000771", strings.Repeat("9", 300), "imsi-é", "IMSI-208930000000001", "nai", "gci", "gli",
+		// the longest SUPI that can still name its CDR file (<supi>.cdr is 255 octets) and the first that cannot
+		"imsi-" + strings.Repeat("7", 246), "imsi-" + strings.Repeat("7", 247), "imsi-" + strings.Repeat("7", 248)}
 	for _, s := range supis {
 		for _, k := range kinds {
 			c := deepCopy(base).(map[string]interface{})
